@@ -61,13 +61,13 @@ def _one(tree):
         if 'w' in used:
             goals.append(eq(val[bn['ow']], CT.expected(o, acts, 'w', 0)))
         if 'wd' in used:
-            goals.append(eq(val[bn['owd']], CT.expected(o, acts, 'wd', sval['dflt_w'])))
+            goals.append(eq(val[bn['owd']], CT.expected(o, acts, 'wd', CT.default_of('wd', sval))))
         if 'reg' in used:
             r = bn['reg']
             goals.append(eq(nxt['regs'][r], CT.expected(o, acts, 'reg', SV.lift(st['regs'][r], Wc))))
         if 'regd' in used:
             r = bn['regd']
-            goals.append(eq(nxt['regs'][r], CT.expected(o, acts, 'regd', sval['dflt_r'])))
+            goals.append(eq(nxt['regs'][r], CT.expected(o, acts, 'regd', CT.default_of('regd', sval))))
         mem = sym.mems[0]
         if 'mem' in used:
             arr = st['mems'][mem]
@@ -126,6 +126,10 @@ def run(ctx):
     # one-bit data (targets, defaults, values): every tree with a `defaults` / register / memory target once more
     narrow = [t for t in trees if any(tg.rstrip('!') in ('wd', 'regd', 'regh', 'mem') for _, tg in CT.assignments(t))]
     trees = trees + [dict(W=1, tree=t) for t in narrow[::2 if ctx.tier == 'quick' else 1]]
+    # defaults= entries given as Python ints (0 clears a register, it does not mean "hold"), non-zero too
+    withd = [t for t in narrow if any(tg.rstrip('!') in ('wd', 'regd', 'regh') for _, tg in CT.assignments(t))]
+    for i, t in enumerate(withd[::3 if ctx.tier == 'quick' else 1]):
+        trees.append(dict(W=3, tree=t, dflt=[(0, 0), (5, 0), (0, 6), (3, 3)][i % 4]))
     res = passcheck.pmap(_one, trees)
     cnt = {}
     solver_s = 0.0
@@ -175,5 +179,5 @@ def run(ctx):
 
 def _show(t):
     if isinstance(t, dict):
-        return 'W=%d|' % t['W'] + _show(t['tree'])
+        return 'W=%d|' % t.get('W', 3) + ('dflt=%s|' % (t['dflt'],) if t.get('dflt') is not None else '') + _show(t['tree'])
     return ';'.join('%s:%s{%s}' % (p, '+'.join(a), _show(c)) for p, a, c in t)
